@@ -14,7 +14,7 @@ one natural number).
 After the repair of F07 (/repo 1e2d662) the value statements hold in full for every component row of the
 regenerated profile (`C05_value_exact`, `C05_value_within_one`).
 
-PROPERTY THEOREMS (audited by ./check): C05_pull_refines, C05_pull_in_order, C05_accumulate_total,
+PROPERTY THEOREMS (audited by ./check): C05_pull_refines, C05_pull_in_order, C05_store_of_value, C05_accumulate_total,
 C05_rows_in_range, C05_value_exact, C05_value_within_one, C05_expansion_off, C05_untouched, C05_on_minus_expanded,
 C05_F07_witness_fixed
 -/
@@ -38,6 +38,21 @@ theorem C05_pull_in_order (ws : List Nat) (hws : Fit.Bits.WF ws) (n1 n2 : Nat) (
     (hwf : Fit.Bits.WF (Fit.Bits.pull ws n1).2) :
     (Fit.Bits.pull (Fit.Bits.pull ws n1).2 n2).1 = sliceAt (Fit.Bits.toNat ws) n1 n2 :=
   Fit.Bits.pull_pull ws hws n1 n2 h1 h2 hwf
+
+/-- **the store of a (possibly array) value is the containing value as one natural number**: `makeBits` of an unsigned
+scalar, or of an array of unsigned elements of 1/2/4/8 bytes that fits the 256 bytes of the store, denotes
+`containerNat` (little-endian concatenation, element 0 least significant) and consists of uint64 words — so by
+`C05_pull_refines` / `C05_pull_in_order` the k-th component is `sliceAt (containerNat value) offₖ bitsₖ`, across element
+boundaries and for any array length up to the capacity. (Signed elements are sign-extended into the neighbouring bits
+by the Go code; no container of the profile is signed.) -/
+theorem C05_store_of_value (v : Value.Value) (ws : List Nat) (h : Fit.Bits.makeBits v = some ws)
+    (hv : match v with
+      | .uint8 _ | .uint16 _ | .uint32 _ | .uint64 _ => True
+      | .sliceUint8 xs => xs.length ≤ 256 | .sliceUint16 xs => 2 * xs.length ≤ 256
+      | .sliceUint32 xs => 4 * xs.length ≤ 256 | .sliceUint64 xs => 8 * xs.length ≤ 256
+      | _ => False) :
+    some (Fit.Bits.toNat ws) = containerNat v ∧ Fit.Bits.WF ws :=
+  Fit.Bits.makeBits_container v ws h hv
 
 /-! ### accumulation -/
 
